@@ -336,6 +336,11 @@ def _multi_section_unit():
     return ContractUnit(MultiSection(), variants=["nested_headers"], thorough_variants=["flat_headers"])
 
 
+def _component_init_units():
+    from contracts.component_init import UNITS
+    return [ContractUnit(u) for u in UNITS]
+
+
 def _budget_units():
     from contracts.budget import UNITS, LEMMAS
     return [ContractUnit(u) for u in UNITS] + LEMMAS
@@ -347,6 +352,7 @@ def _strategy_units():
 
 
 def C02():
+    from contracts import replayers as R2
     from contracts.attributes import EncodeRows
     from contracts.renderer import RenderBody
     from contracts.emitters import RowAsRtf, TextAsRtf
@@ -357,7 +363,7 @@ def C02():
     return Property(
         "C02", units=[ContractUnit(EncodeRows()), ContractUnit(RenderBody()), ContractUnit(RowAsRtf()), ContractUnit(TextAsRtf()), ContractUnit(AssignPages()),
                       ContractUnit(ApplyDataPostProcessing()), _section_unit(), _prepare_unit(), _multi_section_unit()]
-        + _strategy_units(),
+        + _strategy_units() + _component_init_units(),
         level="proof",
         technique="row-view contracts: _assign_pages pages are consecutive intervals covering all rows; _render_body emits every page row exactly once in order; "
                   "_encode emits one Row per frame row whose cell j shows the display text of cell (i, j) in column order; Row._as_rtf keeps cell order; one delimiter space before the text",
@@ -366,7 +372,8 @@ def C02():
                      "(KEPT enumeration); multi-section order: unit MultiSection; calculate_row_metadata is used through AssignPages' ensures"],
         replayers={"pagination/core.py::PageBreakCalculator._assign_pages": replay_assign_pages,
                    "encoding/renderer.py::PageRenderer._render_body": D("cells"), "attributes.py::TableAttributes._encode": D("cells"),
-                   "encoding/unified_encoder.py::": D("cells"), "pagination/strategies/": D("cells")},
+                   "encoding/unified_encoder.py::": D("cells"), "pagination/strategies/": D("cells"), "input.py::": R2.replay_component_keywords,
+                   "services/encoding_service.py::": D("cells")},
         design_ref="4/C02")
 
 
@@ -477,7 +484,7 @@ def C11():
     from contracts import replayers as R
     return Property(
         "C11", units=[ContractUnit(u) for u in UNITS] + [ContractUnit(ConvertSpecialChars()), ContractUnit(EncodeRows()), ContractUnit(EncodeText()),
-                      ContractUnit(SublineHeader())] + TABLES + BOUNDED, level="other",
+                      ContractUnit(SublineHeader())] + _component_init_units() + TABLES + BOUNDED, level="other",
         technique="gating and dispatch contracts on the real convert_text_content / _convert_single_text / convert_latex_to_unicode (the whole text is scanned "
                   "once by the converter's own pattern, a match is replaced by the lookup of the whole token) / _convert_single_command / _convert_special_chars (convert off = "
                   "verbatim + escaping; per-cell binding of text_convert); the real tables (ordered literal mapping, 682 symbols, token pattern, "
@@ -489,7 +496,7 @@ def C11():
                      "re: pattern.sub(f, s) and Match.group(0) are assumed contracts (unit ConvertLatexToUnicode binds the pattern object, the scanned text and "
                      "the replacement function); a failing converter leaves the text unconverted (code-derived clause of _convert_single_text)"],
         replayers={"text_conversion/": R.replay_text_conversion, "services/text_conversion_service.py::": R.replay_text_conversion,
-                   "row.py::": R.replay_text_conversion, "table::conversion_tables": R.replay_text_conversion}, design_ref="4/C11")
+                   "row.py::": R.replay_text_conversion, "table::conversion_tables": R.replay_text_conversion, "input.py::": R.replay_component_keywords}, design_ref="4/C11")
 
 
 def C17():
